@@ -503,6 +503,13 @@ void Router::processActions(void)
     m_transaction_start_time = clock();
     m_abort_transaction = false;
 
+    // End point updates queued while the actions are processed (for the
+    // connectors attached to a moved shape or junction) belong to this
+    // transaction.  Without transactions they would otherwise each start
+    // a nested processTransaction() from within this one.
+    const bool consolidateActions = m_consolidate_actions;
+    m_consolidate_actions = true;
+
     std::list<unsigned int> deletedObstacles;
     actionList.sort();
     ActionInfoList::iterator curr;
@@ -724,6 +731,8 @@ void Router::processActions(void)
     }
     // Clear the actionList.
     actionList.clear();
+
+    m_consolidate_actions = consolidateActions;
 }
 
 bool Router::processTransaction(void)
